@@ -218,6 +218,9 @@ class FakeChannel:
         await self._trip("publish", routing_key)
         ok = self.server.publish(routing_key, body, properties or spec.Basic.Properties())
         self._after()
+        # the publisher confirm is a frame of its own: deliveries triggered by this publish may be handled before it arrives
+        await asyncio.sleep(0)
+        await asyncio.sleep(0)
         if not ok and mandatory:
             return spec.Basic.Return(reply_code=312, reply_text="NO_ROUTE", exchange=exchange, routing_key=routing_key)
         return spec.Basic.Ack(delivery_tag=0)
